@@ -12,9 +12,8 @@ Tr == ndJsonDeserialize(IOEnv.TRACE)
 Ev == Tr[l]
 tvars == <<vars, l>>
 
-Max(S) == CHOOSE x \in S : \A z \in S : z <= x
 HkOf(ld) == IF ld < HBOM[1] \/ ld >= HBOM[HNMON] + 29 THEN 0
-            ELSE Max({k \in 1..HNMON : HBOM[k] <= ld})
+            ELSE CHOOSE k \in 1..HNMON : HBOM[k] <= ld /\ (k = HNMON \/ HBOM[k + 1] > ld)
 
 TInit == /\ l = 1
          /\ InitFirst
@@ -32,8 +31,9 @@ TReset == /\ l <= Len(Tr) /\ Ev.e = "Reset"
                 /\ c' = (D - 1) \div 7 + 1
                 /\ bdm' = BizDaysUpTo(Y, M, D)
                 /\ bcum' = BizUpToRD(N) - BizUpToRD(RD1582 - 1)
-                /\ hk' = HkOf(LD)
-                /\ hd' = IF HkOf(LD) = 0 THEN 0 ELSE LD - HBOM[HkOf(LD)] + 1
+                /\ LET HK == HkOf(LD) IN
+                   /\ hk' = HK
+                   /\ hd' = IF HK = 0 THEN 0 ELSE LD - HBOM[HK] + 1
           /\ l' = l + 1
 
 TNext == /\ l <= Len(Tr) /\ Ev.e = "Next"
